@@ -1,4 +1,4 @@
 SPECIFICATION Spec
-CONSTANTS Names = {"a", "b"} MaxWrites = 3 MaxCrashes = 2 StaleFix = FALSE
+CONSTANTS Names = {"a", "b"} MaxWrites = 3 MaxCrashes = 2 MaxFaults = 0 StaleFix = FALSE
 INVARIANTS NotBad TargetComplete
 CHECK_DEADLOCK FALSE
